@@ -158,7 +158,7 @@ def parse_type(s):
             elif name == "dict":
                 t = TDict(args[0], args[1])
             elif name == "defaultdict":
-                t = TDict(args[0], args[1], default=args[1].cls)
+                t = TDict(args[0], args[1], default=args[1].cls if isinstance(args[1], TRef) else "list")
             else:
                 t = TTuple(args)
         elif name == "int":
